@@ -85,6 +85,20 @@ class Module:
             return self.functions[qualname]
         except KeyError:
             head, _, rest = qualname.partition('.')
+            # `name = staticmethod(helper)` / `name = helper` at class level: an alias kept for callers after the
+            # function itself moved to module level (here or in another pedal module)
+            cls_node = self.classes.get(head) if rest and '.' not in rest else None
+            if cls_node is not None:
+                for st in cls_node.body:
+                    if isinstance(st, ast.Assign) and any(isinstance(t, ast.Name) and t.id == rest for t in st.targets):
+                        v = st.value
+                        if isinstance(v, ast.Call) and isinstance(v.func, ast.Name) and \
+                                v.func.id in ('staticmethod', 'classmethod') and len(v.args) == 1:
+                            v = v.args[0]
+                        if isinstance(v, ast.Name):
+                            target = self.functions.get(v.id) or self._imported(v.id)
+                            if isinstance(target, (ast.FunctionDef, ast.AsyncFunctionDef)):
+                                return target
             node = self._imported(head)
             if isinstance(node, (ast.FunctionDef, ast.AsyncFunctionDef)) and not rest:
                 return node
